@@ -168,6 +168,15 @@ def r4(ctx: Ctx) -> None:
         except Unrecognised:
             nf = None
         ctx.check(nf == ("<=0", "1*1 + key + -1*now"), f, f.node, f"reap filter ({descr})", "key < self.time  (key - now + 1 <= 0)", str(nf))
+    # whether anything is reaped is decided from the expiry index and the clock alone: an exit that depends on other
+    # state of the book (a cached "next expiry", a dirty flag) needs an invariant over every writer of the index that
+    # the rules do not establish (seed C04t: the cache misses orders filed into a bucket that was emptied earlier)
+    for p in ctx.paths(f.qualname):
+        for c, _pol, *_rest in p.conds:
+            other = sorted({s_[2] for s_ in subterms(strip_ver(c)) if s_[0] == "attr" and strip_ver(s_[1]) == ("sym", "self") and s_[2] not in ("expire_time_list", "time", "priority_queue")})
+            if other:
+                ctx.unrec(f, f.node, "the reaper decides from the expiry index and the clock alone", f"a decision of the reaper reads self.{other[0]}: state kept beside the expiry index is not modelled", short(strip_ver(c))[:140])
+                break
     f = ctx.func("Order.is_expired")
     for p in ctx.paths(f.qualname):
         if p.exit[0] != "return" or p.exit[1][0] == "const":
